@@ -193,7 +193,11 @@ def build(spec):
     pts = pts @ A.T + t
     mesh = mesh.copy()
     mesh.update(points=pts)
-    info = dict(A=A, t=t, vertex=vertex, bubble=bubble, boundary=boundary, h=h, dim=dim, order=order, simplex=simplex,
+    # the connectivity in column-major memory order (e.g. a transposed array read from a file): the layout is irrelevant to every result
+    fortran_cells = (spec["jseed"] * 7 + spec["cseed"]) % 4 == 3
+    if fortran_cells:
+        mesh.update(cells=np.asfortranarray(mesh.cells))
+    info = dict(fortran_cells=fortran_cells, A=A, t=t, vertex=vertex, bubble=bubble, boundary=boundary, h=h, dim=dim, order=order, simplex=simplex,
                 volume=abs(np.linalg.det(A)) * float(np.prod(hi - lo)), template=tmpl, lo=lo, hi=hi,
                 affine_cells=(spec["jitter"] == 0 or simplex) and spec["curve"] == 0, nvert=nvert)
     return mesh, info
